@@ -161,6 +161,25 @@ class SymEngine(Engine):
             return [(p, VReal(-v.z))]
         return super().unary_extra(node, p, v)
 
+    # ------------------------------------------------------------------ assumption queries (three-valued)
+    QUERIES = {"is_negative": lambda x: x < 0, "is_positive": lambda x: x > 0, "is_nonnegative": lambda x: x >= 0,
+               "is_nonpositive": lambda x: x <= 0, "is_zero": lambda x: x == 0, "is_integer": lambda x: x == fl(x)}
+
+    def attr_extra(self, p, v, name, node):
+        if self.is_expr(v) and name in self.QUERIES:
+            # SymPy contract (assumed): a query answers True only if the fact holds under every binding, False only if it
+            # fails under every binding, None otherwise
+            from .types import VOpt
+            isnone, val = z3.Bool(fresh_name("q_none")), z3.Bool(fresh_name("q_val"))
+            b = z3.Const(fresh_name("qb"), Beta)
+            fact = self.QUERIES[name](self.den(v.z, b))
+            p.assume(z3.Implies(z3.And(z3.Not(isnone), val), z3.ForAll([b], fact)))
+            p.assume(z3.Implies(z3.And(z3.Not(isnone), z3.Not(val)), z3.ForAll([b], z3.Not(fact))))
+            self.assumptions_used.add("SymPy assumption queries (is_negative, is_positive, is_integer, ...) are sound: True/False only when the "
+                                      "fact holds/fails under every binding, None otherwise")
+            return [(p, VOpt(isnone, VBool(val)))]
+        return super().attr_extra(p, v, name, node)
+
     # ------------------------------------------------------------------ spec helpers
     def sp_floor_(self, node, p):
         return self.bind(self.ev(node.args[0], p), lambda q, v: [(q, VReal(fl(_real(v))))])
@@ -275,7 +294,21 @@ class ParserMixin:
             return z3.BoolVal(False)
         return super().isinstance_extra(p, v, name)
 
+    def unpack(self, v, n, p):
+        from .types import VOpt
+        if isinstance(v, VOpt):
+            # unpacking None raises TypeError: it must be unreachable
+            self.oblige(p, z3.Not(v.isnone), "no-TypeError", "unpack-of-optional")
+            p.assume(z3.Not(v.isnone))
+            return super().unpack(v.val, n, p)
+        return super().unpack(v, n, p)
+
     def getitem_extra(self, p, base, idx, node):
+        from .types import VOpt
+        if isinstance(base, VOpt) and self.spec_mode:
+            return self.get_item(p, base.val, idx, node)
+        if isinstance(base, VOpt):
+            return self.raise_if(p, base.isnone, "TypeError", self.where(node), lambda q: self.get_item(q, base.val, idx, node))
         if isinstance(base, VFnTable):
             s = idx.s if isinstance(idx, VTokVal) else idx.z
             fid = VStr("?").z
